@@ -53,7 +53,7 @@ m = {
     }],
     "checks": checks,
     "not_applicable": na,
-    "notes": "All checks are contract-based deductive verification (see DESIGN.md). Exit 0 = every obligation discharged (known findings listed in known_findings.json print KNOWN-FINDING lines); exit 1 + VIOLATION line = an obligation failed; exit 2 = undecided/broken (tool limit, vacuity guard) with an UNDECIDED/BROKEN line and no VIOLATION line.",
+    "notes": "All checks are contract-based deductive verification (see DESIGN.md). Exit 0 = no violation found: every obligation generated from the current tree was discharged (known findings listed in known_findings.json print KNOWN-FINDING lines); if the code of a function under contract has left the verifier's subset or its contract no longer matches the source, the check prints UNDECIDED lines and one NOT-PROVED line, runs the bounded fall-back drivers, downgrades the evidence level of that run to other, and still exits 0 (not proved is not a violation). Exit 1 + VIOLATION line = an obligation that is discharged on the unchanged tree failed, or a bounded driver found a concrete failing input. Exit 2 + BROKEN line = the machinery could not run (repository does not load, vacuity guard).",
 }
 json.dump(m, open("/verif/MANIFEST.json", "w"), indent=1)
 print("claimed:", sorted(CLAIMED), "n/a:", [x["property_id"] for x in na])
